@@ -626,3 +626,14 @@ func (e *Engine) concreteChoice(n int) int {
 	}
 	return e.concrete.Intn(n)
 }
+
+// utf8DecodeFn: unicode/utf8.DecodeRuneInString from the loaded program (nil if absent).
+func (e *Engine) utf8DecodeFn() *ssa.Function {
+	for _, p := range e.prog.AllPackages() {
+		if p.Pkg.Path() == "unicode/utf8" {
+			p.Build()
+			return p.Func("DecodeRuneInString")
+		}
+	}
+	return nil
+}
